@@ -213,6 +213,10 @@ def main():
             run.violation(b["what"].split(":")[0], b, mech={"what": b["what"], "hint": b.get("mech_hint"),
                                                              "error": b.get("error", "")})
     run.note("worst_relative_error_over_sum_abs_terms", worst)
+    # ---- history workloads: objects used, modified through their setters / re-used, used again (vf/history.py) ----
+    from vf.sandbox import run_extra as _run_extra
+    from vf.common import seed as _seed, tier as _tier
+    _run_extra(run, "vf.history:h_reaction_setters", [{"seed": _seed(), "idx": _i} for _i in range(1600 if _tier() == "thorough" else 160)], cpu_budget=120, kind_prefix="history: ")
     return run.finish()
 
 
